@@ -457,6 +457,91 @@ def check_db_op(run, ir, name, f, o):
     run.ok(key)
 
 
+# ------------------------------------------------------------------------------------------
+# CSV write/read: EXECUTED with cell tags (the text legs -- float formatting, the csv module, genfromtxt -- cannot be encoded).
+# Every cell holds a distinct dyadic number (exact under the declared rounding), so reading back the expected number in the expected
+# period means the right cell went to the right place; names, descriptions, frequencies and spans are compared exactly.
+# ------------------------------------------------------------------------------------------
+def _csv_specs(tier):
+    """lists of (name, frequency key, start args, length, variants, interior missing positions, description)"""
+    lens = [(6, 9, 4, 3), (3, 3, 3, 3), (2, 5, 7, 1), (9, 2, 2, 4)] + ([(4, 4, 9, 9), (1, 1, 1, 6), (5, 6, 7, 8)] if tier == "thorough" else [])
+    out = []
+    for (ly, lq, lm, li) in lens:
+        spec = [("y", "yy", (2015,), ly, 1, (2,) if ly > 3 else (), "Yearly series"),
+                ("q", "qq", (2019, 1), lq, 1, (), "Quarterly series"),
+                ("q2", "qq", (2019, 3), max(lq - 2, 1), 2, (1,) if lq > 4 else (), "Quarterly series, two variants"),
+                ("m", "mm", (2020, 11), lm, 1, (), ""),
+                ("i", "ii", (-1,), li, 1, (), "Integer series")]
+        out.append(spec)
+        out.append(spec[:2])
+        out.append([spec[1], spec[3], spec[0]])
+    out.append([("d", "dd", (2024, 2, 27), 5, 1, (), "Daily across the leap day"), ("m", "mm", (2024, 1), 3, 1, (), "Monthly")])
+    return out
+
+
+def _csv_box(ir, spec):
+    db = ir.Databox()
+    want = {}
+    tag = 0
+    for (name, fk, sargs, n, nv, miss, desc) in spec:
+        start = getattr(ir, fk)(*sargs)
+        data = np.empty((n, nv), dtype=float)
+        for k in range(n):
+            for v in range(nv):
+                tag += 1
+                data[k, v] = float("nan") if (k in miss and 0 < k < n - 1) else tag / 64.0
+        db[name] = ir.Series(start=start, values=data, description=desc)
+        want[name] = (start, data, desc)
+    db["scalar"] = 3.0
+    db["list"] = [1, 2]
+    return db, want
+
+
+def _csv_verdict(ir, spec, names=None):
+    import tempfile, os
+    db, want = _csv_box(ir, spec)
+    with tempfile.TemporaryDirectory() as folder:
+        fn = os.path.join(folder, "roundtrip.csv")
+        kw = dict(names=list(names)) if names else {}
+        db.to_csv_file(fn, description_row=True, **kw)
+        back = ir.Databox.from_csv_file(fn, description_row=True)
+    expected = [n for n in want if (not names or n in names)]
+    if sorted(back.keys()) != sorted(expected):
+        return False, f"names read back {sorted(back.keys())}, expected {sorted(expected)}"
+    for n in expected:
+        start, data, desc = want[n]
+        y = back[n]
+        if y.frequency != start.frequency:
+            return False, f"{n}: frequency {start.frequency} -> {y.frequency}"
+        if (y.get_description() or "") != desc:
+            return False, f"{n}: description {desc!r} -> {y.get_description()!r}"
+        end = start + data.shape[0] - 1
+        if (y.start, y.end) != (start, end):
+            return False, f"{n}: span {start}..{end} -> {y.start}..{y.end}"
+        got = np.asarray(y.get_data(start >> end), dtype=float)
+        if got.shape != data.shape or not np.array_equal(got, data, equal_nan=True):
+            return False, f"{n}: values differ after the round trip"
+    return True, "ok"
+
+
+def check_csv(run, ir, tier):
+    key = "csv round trip of mixed-frequency databoxes (executed with cell tags)"
+    count = 0
+    for si, spec in enumerate(_csv_specs(tier)):
+        for names in (None, tuple(s_[0] for s_ in spec[:2])):
+            count += 1
+            try:
+                ok, msg = _csv_verdict(ir, spec, names)
+            except Exception as exc:
+                ok, msg = False, f"round trip raises {type(exc).__name__}: {str(exc)[:140]}"
+            if not ok:
+                run.counterexample(key, "databox:csv", f"structure {si}, names={names}: {msg}", dict(kind="csv", spec_index=si, names=list(names) if names else None, tier=tier))
+                return
+    run.extra["csv_round_trips_executed"] = count
+    run.extra["executed_obligations"] = run.extra.get("executed_obligations", 0) + 1
+    run.ok(key, nontrivial=False)
+
+
 def main(run):
     ir = load_irispie()
     from irispie.dataslates import main as dm, _variants as dv, _invariants as di
@@ -469,7 +554,9 @@ def main(run):
                                 "1..3 variants x fallbacks/overwrites on/off; databox operations on 4-name boxes with tagged series: overlay/underlay (all names, list, list with foreign name), "
                                 "clip (3 windows), prepend, keep/remove/rename/copy with list, predicate and renaming-function selections, merge(replace/discard), |")
     run.bounds["values"] = "a distinct real per series cell; exact equality (mostly object identity)"
-    run.outside += ["CSV write/read (file I/O, csv module, float->text): not claimed", "merge(stack) with non-series values, JSON", "frequencies other than quarterly", "steady/zero/minus_control constructors"]
+    run.bounds["csv"] = ("EXECUTED, not solver-decided: CSV write/read of databoxes with yearly/quarterly/monthly/integer/daily series of different lengths, a two-variant series, "
+                         "interior missing values, descriptions, a scalar and a list, all names and a name selection; every cell a distinct dyadic tag")
+    run.outside += ["CSV write/read as a solver claim (file I/O, csv module, float->text cannot be encoded): only the executed tagged round trip above", "CSV options (delimiter, date formatter, numeric format), leading/trailing missing values", "merge(stack) with non-series values, JSON", "frequencies other than quarterly", "steady/zero/minus_control constructors"]
     proxy = npproxy.Proxy()
     with npproxy.installed(proxy, *mods, dm, dv, di, extra=[none_is_nan_patch(ir)]):
         for args in _slate_specs(run.tier):
@@ -494,12 +581,23 @@ def main(run):
                 run.unknown(f"databox:{name}", exc)
             except Exception as exc:
                 run.error(f"databox:{name}", exc)
+    try:
+        check_csv(run, ir, run.tier)
+    except Exception as exc:
+        run.error("csv", exc)
     run.extra["exhaustive"] = True
 
 
 def replay(case):
     """float twin: tags replaced by distinct numbers; equality of numbers (distinct by construction)"""
     ir = load_irispie()
+    if case.get("kind") == "csv":
+        spec = _csv_specs(case.get("tier", "thorough"))[case["spec_index"]]
+        try:
+            ok, msg = _csv_verdict(ir, spec, tuple(case["names"]) if case.get("names") else None)
+        except Exception as exc:
+            return True, f"round trip raises {type(exc).__name__}: {exc}"
+        return (not ok), msg
     vals = {k: float(Fraction(a, b)) for k, (a, b) in case.get("values", {}).items()}
     g = globals()
     real_tagged, real_sym = g["tagged"], S.sym
